@@ -235,8 +235,17 @@ func (a *plAnalysis) checkC02() {
 		if gotColl != c.TgtID {
 			a.v("C02/collection-id", "message %s carries collection id %d, downstream id of %s is %d", e.ID, gotColl, c.Name, c.TgtID)
 		}
-		if checkPart && gotPart != c.tgtPartID(e.Src.Part) {
-			a.v("C02/partition-id", "message %s carries partition id %d, downstream id of partition %q is %d", e.ID, gotPart, e.Src.Part, c.tgtPartID(e.Src.Part))
+		wantPart := c.tgtPartID(e.Src.Part)
+		if e.Src.NewInc {
+			wantPart += plNewIncOffset
+		}
+		if checkPart && gotPart != wantPart {
+			sig := "C02/partition-id"
+			if e.Src.NewInc && gotPart == c.tgtPartID(e.Src.Part) {
+				// the message of a partition that was created again carries the downstream id of the dropped incarnation
+				sig = "C02/partition-id/stale-after-recreate"
+			}
+			a.v(sig, "message %s carries partition id %d, downstream id of partition %q is %d", e.ID, gotPart, e.Src.Part, wantPart)
 		}
 		if gotShard != wantV {
 			a.v("C02/shard-name", "message %s carries shard %q, source shard %s is paired with %s", e.ID, gotShard, e.Src.Stream, wantV)
